@@ -94,6 +94,9 @@ class Report:
         """anchor lookup: returns thing, or records analysis-broken when it is None"""
         if thing is None or thing == []:
             self.broken(rid, "anchor missing: %s" % what)
+            if what.startswith("function "):
+                from . import build
+                build.note_requested(what.split()[1], False)
         return thing
 
     def sample(self, s):
